@@ -17,7 +17,8 @@ import (
 	"verif/engine/sym"
 )
 
-const RepoDir = "/repo"
+// RepoDir is /repo; VERIF_REPO overrides it for development runs against scratch worktrees.
+var RepoDir = repoDir()
 const VerifDir = "/verif"
 const NetpollPath = "github.com/cloudwego/netpoll"
 
@@ -36,6 +37,9 @@ type HarnessInfo struct {
 	Expect   string
 	NoPanicCheck bool
 	Also     []string
+	PO       bool
+	MaxSpawn int
+	POTimeout int
 }
 
 type Loaded struct {
@@ -87,7 +91,18 @@ func Load(groups []string) (*Loaded, error) {
 		{"netpoll", RepoDir, NetpollPath},
 		{"mux", filepath.Join(RepoDir, "mux"), NetpollPath + "/mux"},
 	} {
-		for _, f := range harnessFiles(pd.dir, groups) {
+		hf := harnessFiles(pd.dir, groups)
+		if pd.dir == "mux" && len(hf) > 0 {
+			// the harness vocabulary is shared: inject the netpoll copies under package mux
+			for _, cf := range []string{"common_intrinsics.go", "common_native.go"} {
+				b, err := os.ReadFile(filepath.Join(VerifDir, "harness", "netpoll", cf))
+				if err != nil {
+					return nil, err
+				}
+				overlay[filepath.Join(pd.virt, "zz_verif_"+cf)] = []byte(strings.Replace(string(b), "package netpoll", "package mux", 1))
+			}
+		}
+		for _, f := range hf {
 			b, err := os.ReadFile(f)
 			if err != nil {
 				return nil, err
@@ -190,6 +205,12 @@ func Load(groups []string) (*Loaded, error) {
 					h.Loop, _ = strconv.Atoi(strings.TrimSpace(m[2]))
 				case "bounds":
 					h.Bounds = strings.TrimSpace(m[2])
+				case "po":
+					h.PO = true
+				case "maxspawn":
+					h.MaxSpawn, _ = strconv.Atoi(strings.TrimSpace(m[2]))
+				case "potimeout":
+					h.POTimeout, _ = strconv.Atoi(strings.TrimSpace(m[2]))
 				case "also":
 					h.Also = strings.Fields(m[2])
 				case "nopaniccheck":
@@ -213,4 +234,11 @@ func docAbove(src string, line int) []string {
 		out = append([]string{l}, out...)
 	}
 	return out
+}
+
+func repoDir() string {
+	if d := os.Getenv("VERIF_REPO"); d != "" {
+		return d
+	}
+	return "/repo"
 }
